@@ -48,6 +48,11 @@ def run(chk):
         for pre, sc in orders:
             items.append({"case": c, "seed": seed + 11, "scalar": sc, "ninputs": 1, "pre_compile": pre,
                           "label": s5.case_label(c) + f"|{sc}|after:{'+'.join(pre)}"})
+    # real-only C functions (erf, Bessel) of a complex-valued coefficient, on data with non-zero imaginary parts
+    for k, cl in enumerate(("interval", "triangle")):
+        for sc in ("complex128", "complex64"):
+            items.append({"case": {"cell": cl, "elem": "P1", "term": "cerf", "rule": "custom", "geom": "affine", "xdeg": 1},
+                          "seed": chk.seed * 100003 + 900 + k, "scalar": sc, "ninputs": 1, "label": f"cerf/{cl}|{sc}|complex"})
     recs = s5.run_items(chk, items, nworkers=4 if quick else 6)
     for r in recs:
         if r["status"] == "skipped" and r.get("history_error"):
